@@ -93,6 +93,16 @@ class KeyBase:
     def __repr__(self):
         return f'{type(self).__name__}({self.rank},{self.uid})'
 
+    # equality "by identity", expressed through the uid so that it survives pickling
+    def __eq__(self, other):
+        return type(other) is type(self) and other.uid == self.uid
+
+    def __hash__(self):
+        return hash(('KeyBase', self.uid))
+
+    def __reduce__(self):
+        return (type(self), (self.rank, self.uid))
+
 
 _KEY_CLASSES: dict[tuple[str, bool], type] = {}
 
@@ -113,6 +123,10 @@ def key_class(tag: str, orderable: bool) -> type:
         cls.__module__ = module
         cls.__qualname__ = name
         _KEY_CLASSES[k] = cls
+        import sys
+        import types
+        m = sys.modules.setdefault(module, types.ModuleType(module))
+        setattr(m, name, cls)
     return cls
 
 
@@ -172,7 +186,10 @@ class UBase:
 
 
 NUM_USER_CLASSES = 8
-USER_CLASSES = [type(f'U{i}', (UBase,), {'cls_id': i}) for i in range(NUM_USER_CLASSES)]
+USER_CLASSES = [type(f'U{i}', (UBase,), {'cls_id': i, '__module__': __name__})
+                for i in range(NUM_USER_CLASSES)]
+for _c in USER_CLASSES:
+    globals()[_c.__name__] = _c
 
 
 def named_entries(n):
@@ -241,11 +258,15 @@ def class_of(cls_kind: int, idx: int):
 # default factories and predicates
 
 
-def _fac3():
-    return 3
+class _Fac3:
+    def __call__(self):
+        return 3
+
+    def __repr__(self):
+        return 'fac3'
 
 
-FACTORIES = [int, list, dict, _fac3]
+FACTORIES = [int, list, dict, _Fac3()]
 
 
 def _pred7(x):
